@@ -3,6 +3,7 @@ package main
 import (
 	"fmt"
 	"go/types"
+	"regexp"
 	"sort"
 	"strings"
 
@@ -46,6 +47,32 @@ func genOnStoreCoverage(P *Program, CS *ContractSet, prop string) ([]*Obligation
 			if counts && strings.Contains(oc.Target, ".") {
 				want[key{ct.Pkg, oc.Target}] = true
 			}
+		}
+	}
+	// coverage is what justifies an object invariant that is *relied on*: targets whose field no objinv clause (other than
+	// an assumed astinv) mentions are plain obligations about the stores of the function that carries them
+	var invTexts []string
+	for _, ct := range CS.Funcs {
+		for _, ti := range ct.TypeInv {
+			if !ti.Assumed {
+				invTexts = append(invTexts, ti.Clause.Text)
+			}
+		}
+		for _, c := range ct.ObjInv {
+			invTexts = append(invTexts, c.Text)
+		}
+	}
+	for k := range want {
+		field := k.target[strings.LastIndex(k.target, ".")+1:]
+		re := regexp.MustCompile(`\b` + regexp.QuoteMeta(field) + `\b`)
+		relied := false
+		for _, t := range invTexts {
+			if re.MatchString(t) {
+				relied = true
+			}
+		}
+		if !relied {
+			delete(want, k)
 		}
 	}
 	var obls []*Obligation
